@@ -30,6 +30,7 @@ func init() {
 			{ID: "C10.7", Desc: "never (nil, nil)", Run: ruleC10_7, MinSites: 2},
 			{ID: "C10.8", Desc: "logging is inert", Run: ruleC10_8, MinSites: 3},
 			{ID: "C10.9", Desc: "bounded waits on the foreground path", Run: func(c *Ctx) { ruleBoundedWaits(c, "C10.9", true) }, MinSites: 3},
+			{ID: "C10.13", Desc: "the cloned request's header map is non-nil before fields are set on it", Run: ruleC10_13, MinSites: 1},
 			{ID: "C10.12", Desc: "string indexing at i+k is guarded by a length test that covers offset k", Run: ruleC10_12, MinSites: 1},
 			{ID: "C10.11", Desc: "the entry reader never returns (nil entry, nil error); the entry handed to the validation handler is never nil", Run: ruleC10_11, MinSites: 2},
 			{ID: "C10.10", Desc: "no mutex is left locked on any return (a failing store operation must not wedge the next RoundTrip)", Run: func(c *Ctx) { ruleC14_1(c); renameRule(c, "C14.1", "C10.10") }, MinSites: 4},
@@ -1220,5 +1221,48 @@ func ruleC10_12(c *Ctx) {
 	}
 	if n == 0 {
 		c.Pass("C10.12", "index-guarded", desc, "no constant-offset string indexing on the exchange")
+	}
+}
+
+// ruleC10_13: http.Header.Clone of a nil header is nil, and setting a field on a nil map panics. The request clone made
+// for the conditional request takes its header from Header.Clone(); it must replace a nil result by a fresh map (a
+// store of `make(http.Header)` into the clone's Header field under a nil test), or copy the header in a way that always
+// yields a map.
+func ruleC10_13(c *Ctx) {
+	if !c.Need("C10.13", "cloneReq") {
+		return
+	}
+	fn := c.A.F("cloneReq")
+	desc := "the clone's Header is a non-nil map whatever the caller's request carries"
+	viaClone, fresh := false, false
+	instrsOf(fn, func(in ssa.Instruction) {
+		st, ok := in.(*ssa.Store)
+		if !ok {
+			return
+		}
+		fa, ok := st.Addr.(*ssa.FieldAddr)
+		if !ok || !isHTTPRequestPtr(fa.X.Type()) || fieldName(fa.X.Type(), fa.Field) != "Header" {
+			return
+		}
+		switch v := st.Val.(type) {
+		case *ssa.Call:
+			if callIsMethod(&v.Call, "net/http", "Header", "Clone") || callIsPkgFunc(&v.Call, "maps", "Clone") {
+				viaClone = true
+			}
+		case *ssa.MakeMap:
+			fresh = true
+		}
+	})
+	// a clone made by http.Request.Clone has the same property (Header.Clone of nil is nil)
+	instrsOf(fn, func(in ssa.Instruction) {
+		if cc := callOf(in); cc != nil && callIsMethod(cc, "net/http", "Request", "Clone") {
+			viaClone = true
+		}
+	})
+	switch {
+	case viaClone && !fresh:
+		c.Fail("C10.13", "clone-header-non-nil", desc, c.P.ShortName(fn)+": the header comes from Clone(), which is nil for a nil header, and is never replaced by a fresh map; a request built with a nil Header panics (`assignment to entry in nil map`) as soon as the stored response needs validation")
+	default:
+		c.Pass("C10.13", "clone-header-non-nil", desc, c.P.ShortName(fn))
 	}
 }
